@@ -362,6 +362,24 @@ def badArgAttrs : List Attr :=
    a0 "oneway" ["Args"], a0 "foo" [], a0 "foo" ["x"], a0 "Allow" ["All"], a0 "deprecate" [], a0 "foo::bar" [], a0 "cs::allow" ["x", "y"],
    a0 "sliced_format" ["Args"], a0 "onewayx" []]
 
+/-- attributes whose verdict is written down HERE, literally, from the language's documentation — not computed from the
+    extracted attribute table (the model follows that table; `attribute_table_as_specified` pins it in the proof, these cases give
+    the failing input when the table drifts): (place, attribute, expected error kind or none) -/
+def pinnedAttrCases : List (Place × Attr × Option String) :=
+  [(.struct, a0 "allow" ["All"], none), (.struct, a0 "allow" ["Deprecated"], none), (.struct, a0 "allow" ["MalformedDocComment"], none),
+   (.struct, a0 "allow" ["IncorrectDocComment"], none), (.struct, a0 "allow" ["BrokenDocLink"], none),
+   (.struct, a0 "allow" ["All", "Deprecated", "BrokenDocLink"], none),
+   (.struct, a0 "allow" ["DuplicateFile"], some "InvalidAttributeArgument"), (.file, a0 "allow" ["DuplicateFile"], some "InvalidAttributeArgument"),
+   (.struct, a0 "allow" ["Syntax"], some "InvalidAttributeArgument"), (.struct, a0 "allow" [], some "IncorrectAttributeArgumentCount"),
+   (.opReturns, a0 "compress" ["Args"], none), (.opReturns, a0 "compress" ["Return"], none), (.opReturns, a0 "compress" ["Args", "Return"], none),
+   (.opReturns, a0 "compress" ["Both"], some "InvalidAttributeArgument"), (.opReturns, a0 "compress" [], some "IncorrectAttributeArgumentCount"),
+   (.opReturns, a0 "slicedFormat" ["Args"], none), (.opReturns, a0 "slicedFormat" ["Return", "Args"], none),
+   (.opReturns, a0 "slicedFormat" ["Both"], some "InvalidAttributeArgument"), (.opReturns, a0 "slicedFormat" [], some "IncorrectAttributeArgumentCount"),
+   (.struct, a0 "deprecated" [], none), (.struct, a0 "deprecated" ["reason"], none),
+   (.struct, a0 "deprecated" ["a", "b"], some "IncorrectAttributeArgumentCount"),
+   (.opVoid, a0 "oneway" [], none), (.opVoid, a0 "oneway" ["x"], some "IncorrectAttributeArgumentCount"),
+   (.struct, a0 "nosuch" [], some "UnknownAttribute"), (.struct, a0 "cs::anything" ["x", "y"], none)]
+
 /-! ### bounded-exhaustive families -/
 
 def product {α} : List (List α) → List (List α)
@@ -419,6 +437,9 @@ def keysFamily (o : Out) (tier : Tier) : IO Unit := do
     emit o "keys-depth4" [file ((keyEntry site0 (wrapKey [wrapKey [wrapKey [wrapKey [k]]]])).defs "")]
 
 def attributesFamily (o : Out) : IO Unit := do
+  for (pl, a, exp) in pinnedAttrCases do
+    let texts := [placeFile pl "" [a]].map fun f => (render 0 0 (fileItems f)).1
+    o.line (compileCase "attributes-pinned" "codes" "-" texts (match exp with | none => "-" | some k => code k))
   for pl in Place.all do
     emit o "attributes-none" [placeFile pl "" []]
     for d in builtins do
